@@ -308,9 +308,67 @@ fn text_values<L: LitName>() -> Vec<OrderedAig<L>> {
     out
 }
 
+/// Large sections: every section (and a single justice property) with 1023 / 1024 / 1025 / 1100
+/// entries - the parsers pre-allocate at most 1024 entries per section, so sizes around that limit
+/// are where a clamped loop bound or a lost tail would show. Not for u8 (the literals do not fit).
+fn large_values<L: LitName>() -> Vec<OrderedAig<L>> {
+    use flussab_aiger::aig::{OrderedAndGate, OrderedLatch, SymbolTarget};
+    use std::borrow::Cow;
+    let mut out = Vec::new();
+    if L::MAX_CODE < 8000 {
+        return out;
+    }
+    let l = |c: usize| L::from_code(c);
+    for n in [1023usize, 1024, 1025, 1100] {
+        let empty = || OrderedAig { max_var_index: 2, input_count: 2, latches: vec![], outputs: vec![], bad_state_properties: vec![], invariant_constraints: vec![], justice_properties: vec![], fairness_constraints: vec![], and_gates: vec![], symbols: vec![], comment: None };
+        let lits: Vec<L> = (0..n).map(|k| l([2, 3, 4, 5, 0, 1][k % 6])).collect();
+        let mut v = empty();
+        v.outputs = lits.clone();
+        out.push(v);
+        let mut v = empty();
+        v.bad_state_properties = lits.clone();
+        out.push(v);
+        let mut v = empty();
+        v.invariant_constraints = lits.clone();
+        out.push(v);
+        let mut v = empty();
+        v.fairness_constraints = lits.clone();
+        out.push(v);
+        // one long justice property (between two short ones), and many short ones
+        let mut v = empty();
+        v.justice_properties = vec![vec![l(2)], lits.clone(), vec![l(5), l(4)]];
+        out.push(v);
+        let mut v = empty();
+        v.justice_properties = (0..n).map(|k| if k % 3 == 0 { vec![] } else { vec![l(2 + k % 4)] }).collect();
+        out.push(v);
+        // many inputs, latches, gates, symbols
+        let mut v = empty();
+        v.max_var_index = n;
+        v.input_count = n;
+        v.outputs = vec![l(2 * n)];
+        v.symbols = (0..n).map(|k| Symbol { target: SymbolTarget::Input(k), name: Cow::Owned(format!("in{k}")) }).collect();
+        out.push(v);
+        let mut v = empty();
+        v.max_var_index = 2 + n;
+        v.latches = (0..n).map(|k| OrderedLatch { next_state: l(2 + k % 4), initialization: [None, Some(false), Some(true)][k % 3] }).collect();
+        v.outputs = vec![l(2 * (2 + n))];
+        out.push(v);
+        let mut v = empty();
+        v.max_var_index = 2 + n;
+        v.and_gates = (0..n).map(|k| OrderedAndGate { inputs: [l(2 * (2 + k) + (k & 1)), l(2 + k % 2)] }).collect();
+        v.outputs = vec![l(2 * (2 + n) + 1)];
+        v.comment = Some("large".to_string());
+        out.push(v);
+    }
+    out
+}
+
 fn run_lit<L: LitName>(tier: Tier, report: &mut Report) {
     let mut vals = values::<L>(tier);
     vals.extend(text_values::<L>());
+    let large = large_values::<L>();
+    report.count(&format!("large_section_values_{}", L::NAME), large.len() as u64);
+    vals.extend(large);
     report.count(&format!("values_{}", L::NAME), vals.len() as u64);
     let total = mc_core::par::par_fold(
         vals.len(),
